@@ -291,11 +291,20 @@ func VerifC13StreamRetry() {
 	w := vNewWorld(1)
 	n := zzverif.Param("streamkeys", 304)
 	rev := w.base
-	names := make([][]byte, n)
+	var names [][]byte
 	for i := 0; i < n; i++ {
-		names[i] = []byte{'/', 'r', '/', 's', byte('0' + i/100), byte('0' + i/10%10), byte('0' + i%10)}
-		w.s.RawPut(w.b.coder.EncodeRevisionKey(names[i]), uint64ToBytes(rev))
-		w.s.RawPut(w.b.coder.EncodeObjectKey(names[i], rev), []byte("v"))
+		name := []byte{'/', 'r', '/', 's', byte('0' + i/100), byte('0' + i/10%10), byte('0' + i%10)}
+		names = append(names, name)
+		if i == 299 {
+			// the 300th key (the last one of the first streamed batch) is a proper prefix of its successors
+			for _, suffix := range []string{"-0", ".old", "/x"} {
+				names = append(names, append(append([]byte(nil), name...), suffix...))
+			}
+		}
+	}
+	for _, name := range names {
+		w.s.RawPut(w.b.coder.EncodeRevisionKey(name), uint64ToBytes(rev))
+		w.s.RawPut(w.b.coder.EncodeObjectKey(name, rev), []byte("v"))
 	}
 	at := 2*300 + 2*zzverif.Choose("faultAfter", 3) // two records per key: after 300, 301, 302 keys
 	fired := false
@@ -309,7 +318,7 @@ func VerifC13StreamRetry() {
 	}
 	ch, err := w.b.ListByStream(vCtx(), w.b.coder.EncodeObjectKey([]byte("/r/"), 0), w.b.coder.EncodeObjectKey([]byte("/r0"), 0), rev)
 	zzverif.Assert(err == nil, "stream starts")
-	seen := make([]int, n)
+	seen := map[string]int{}
 	nterm, errText := 0, ""
 	for resp := range ch {
 		rr := resp.RangeResponse
@@ -320,17 +329,15 @@ func VerifC13StreamRetry() {
 			continue
 		}
 		for _, kv := range rr.Kvs {
-			k := kv.Key
-			zzverif.Assert(len(k) == 7, "streamed key is one of the stored keys")
-			i := int(k[4]-'0')*100 + int(k[5]-'0')*10 + int(k[6]-'0')
-			seen[i]++
+			seen[string(kv.Key)]++
 		}
 	}
 	zzverif.Assert(nterm == 1, "the stream ends with exactly one terminator")
 	if errText == "" {
-		for i := 0; i < n; i++ {
-			zzverif.Assert(seen[i] == 1, "a stream that ends without error holds every qualifying key exactly once")
+		for _, name := range names {
+			zzverif.Assert(seen[string(name)] == 1, "a stream that ends without error holds every qualifying key exactly once")
 		}
+		zzverif.Assert(len(seen) == len(names), "a stream holds only keys of the interval")
 		zzverif.Cover("completed")
 	} else {
 		zzverif.Cover("failed-with-error")
